@@ -381,15 +381,19 @@ def run_e1(exe, mode, tier, slices=NCPU, timeout=3600):
 E2ROOT = os.path.join(BUILD, "e2")
 
 
-def gen_corpus(corpus, tier, n_shards=NCPU, features=("serde-json-impl",), exclude=()):
+def gen_corpus(corpus, tier, n_shards=None, features=("serde-json-impl",), exclude=()):
     """(Re)generate the shard crates of a corpus; files whose content did not change keep their mtime."""
     sys.path.insert(0, os.path.join(VERIF, "gen"))
     import importlib
     import e2core
     mod = importlib.import_module("corpus_" + corpus)
     cases = mod.build(tier)
+    if n_shards is None:
+        n_shards = max(1, min(NCPU, len(cases) // 12))
     name = f"{corpus}{tier[0]}"
-    files, crates = e2core.corpus_files(name, cases, n_shards, repo=REPO, verif=VERIF, features=features, exclude=exclude)
+    files, crates = e2core.corpus_files(name, cases, n_shards, repo=REPO, verif=VERIF,
+                                         features=getattr(mod, "FEATURES", features), exclude=exclude,
+                                         extra_deps=getattr(mod, "EXTRA_DEPS", ""))
     e2core.sync_tree(os.path.join(E2ROOT, name), files)
     # root manifest lists every corpus directory present
     members = []
